@@ -1,7 +1,7 @@
 (* C14 - rexpy results depend only on the multiset of examples and the seed: generator protocol. *)
 From Coq Require Import ZArith List Bool.
 From Coq Require Import Permutation.
-From Tdda Require Import Base.Str Rexpy.Chars Rexpy.Pipeline Rexpy.Prng Rexpy.PermProofs.
+From Tdda Require Import Base.Sexp Base.Str Rexpy.Chars Rexpy.Pipeline Rexpy.Prng Rexpy.PipelineProofs Rexpy.PermProofs Rexpy.CleanProofs Rexpy.RunPermProofs.
 Import ListNotations.
 
 (* for every generator (state type, seeding function, sample transition), seed, numbers of samples
@@ -38,6 +38,52 @@ Print Assumptions C14_batch_ignores_frequencies.
 Theorem C14_vrles_order_independent : forall L L', Permutation L L' -> to_vrles L = to_vrles L'.
 Proof. exact to_vrles_perm. Qed.
 Print Assumptions C14_vrles_order_independent.
+
+(* THE WHOLE RUN (Extractor.__init__ + extract(), Rexpy/Pipeline.v run_extractor), for every character table, option
+   set, oracle tables and sample selections: when the number of distinct stored strings does not exceed
+   do_all_exceptions (4000 by default; nothing is then sampled), any reordering of the input items - list order,
+   or key order of a frequency dictionary - gives the same list of expressions. *)
+Theorem C14_run_order_independent : forall ct o gt mt samples samples' items items' lo,
+  Permutation items items' ->
+  (forall it, In it items -> 0 <= snd it) ->
+  1 <= z_max_strings_in_group o ->
+  Z.of_nat (length (ex_strings (fst (clean ct o items)))) <= z_do_all_exceptions o ->
+  run_extractor ct o gt mt samples items = Ok lo ->
+  exists lo', run_extractor ct o gt mt samples' items' = Ok lo' /\ lo_rex lo' = lo_rex lo /\ lo_none lo' = lo_none lo /\
+              lo_passes lo' = lo_passes lo.
+Proof. exact run_extractor_perm. Qed.
+Print Assumptions C14_run_order_independent.
+
+(* ... repeating an example changes nothing (no pruning option: those are defined by frequencies) *)
+Theorem C14_run_repeat_independent : forall ct o gt mt samples samples' items it k lo,
+  (forall x, In x items -> 0 <= snd x) -> In it items ->
+  no_pruning o -> 1 <= z_max_strings_in_group o ->
+  Z.of_nat (length (ex_strings (fst (clean ct o items)))) <= z_do_all_exceptions o ->
+  run_extractor ct o gt mt samples items = Ok lo ->
+  exists lo', run_extractor ct o gt mt samples' (items ++ repeat it k) = Ok lo' /\ lo_rex lo' = lo_rex lo /\
+              lo_none lo' = lo_none lo /\ lo_passes lo' = lo_passes lo.
+Proof. exact run_extractor_repeat. Qed.
+Print Assumptions C14_run_repeat_independent.
+
+(* ... and a list gives what any frequency dictionary with the same non-zero keys gives *)
+Theorem C14_run_list_or_dict : forall ct o gt mt samples samples' (l : list (option str)) (d : list (option str * Z)) lo,
+  (forall kv, In kv d -> 0 <= snd kv) ->
+  (forall s, In s l <-> exists n, In (s, n) d /\ n <> 0) ->
+  no_pruning o -> 1 <= z_max_strings_in_group o ->
+  Z.of_nat (length (ex_strings (fst (clean ct o (list_items l))))) <= z_do_all_exceptions o ->
+  run_extractor ct o gt mt samples (list_items l) = Ok lo ->
+  exists lo', run_extractor ct o gt mt samples' d = Ok lo' /\ lo_rex lo' = lo_rex lo /\
+              lo_none lo' = lo_none lo /\ lo_passes lo' = lo_passes lo.
+Proof. exact run_extractor_list_or_dict. Qed.
+Print Assumptions C14_run_list_or_dict.
+
+(* clean is a counter: stored pairs of permuted inputs are permutations of each other *)
+Theorem C14_clean_order_independent : forall ct o items items', Permutation items items' ->
+  Permutation (pairs (fst (clean ct o items))) (pairs (fst (clean ct o items'))) /\
+  Permutation (ex_strings (fst (clean ct o items))) (ex_strings (fst (clean ct o items'))) /\
+  snd (clean ct o items) = snd (clean ct o items').
+Proof. exact clean_perm. Qed.
+Print Assumptions C14_clean_order_independent.
 Close Scope Z_scope.
 
 Example C14_trace_example :
